@@ -2,6 +2,6 @@
    ExtrOcamlBasic only; no Extract Constant / Extract Inductive of our own. *)
 From Coq Require Import ExtrOcamlBasic.
 From SV Require Import Lib.Bytes Lib.ExtractBase Model.Startup Model.StartupMethods.
-Extraction "c15_model.ml" extract_anchor startup_gen startup startup_asfound env_of_ranges
+Extraction "c15_model.ml" extract_anchor startup_gen startup startup_asfound env_of_ranges renv_of_list
   listen_of_options method_features documented_methods accepted_by method_choices_b
   ipv6_active plan_has_v6 search_ports.
